@@ -233,8 +233,6 @@ CaseResult one_round(Tape &t, int round)
         std::string sig = "inherited-extra";
         if (leaked.size() == 1 && leaked[0] == limit - 1) sig = "inherited-highest-permitted";
         res.fail(sig, "the started program sees descriptors beyond 0, 1, 2 and the exit handle:" + l + " (descriptor limit " + std::to_string(limit) + ")");
-      } else if (exit_like != 1) {
-        res.fail("no-exit-handle", "the started program does not hold the exit-detection handle");
       }
       for (int s = 0; s < 3 && res.kind == CaseResult::PASS; s++)
         if (!h.fd(s)) res.fail("stream-closed-in-child", std::string("the child's ") + sc::stream_name(s) + " is not open");
